@@ -93,44 +93,69 @@ theorem mem_zipIdx_snd_lt {α} {l : List α} {c : α × Nat} (h : c ∈ l.zipIdx
   simp at this
   omega
 
-theorem hvLeast2d_ok (hv : List Pt → Pt → Int) (ref : Option Pt) (points : List Pt) (hne : points ≠ []) :
-    hvLeast2d hv ref points < points.length := by
+theorem contribs2dGo_idx (r0 : Int) : ∀ (y : Int) (L : List (Pt × Nat)) (c : Int × Nat),
+    c ∈ contribs2dGo r0 y L → ∃ p, (p, c.2) ∈ L
+  | _, [], c, h => by simp [contribs2dGo] at h
+  | y, (p, i) :: rest, c, h => by
+    simp only [contribs2dGo] at h
+    rcases List.mem_cons.mp h with rfl | h
+    · exact ⟨p, by simp⟩
+    · obtain ⟨q, hq⟩ := contribs2dGo_idx r0 (py p) rest c h
+      exact ⟨q, List.mem_cons_of_mem _ hq⟩
+
+theorem contribs2dLit_idx (ref : Option Pt) (points : List Pt) (c : Int × Nat)
+    (h : c ∈ contribs2dLit ref points) : c.2 < points.length := by
+  unfold contribs2dLit at h
+  simp only at h
+  have key : ∀ q, (q, c.2) ∈ points.zipIdx.mergeSort lexLe → c.2 < points.length := by
+    intro q hq
+    exact mem_zipIdx_snd_lt (c := (q, c.2)) ((List.mergeSort_perm _ _).mem_iff.mp hq)
+  cases ref with
+  | some r =>
+    obtain ⟨q, hq⟩ := contribs2dGo_idx _ _ _ c h
+    exact key q hq
+  | none =>
+    simp only at h
+    split at h
+    · simp at h
+    · rename_i first rest hs
+      obtain ⟨q, hq⟩ := contribs2dGo_idx _ _ _ c ((List.dropLast_sublist _).subset h)
+      exact key q (by rw [hs]; exact List.mem_cons_of_mem _ hq)
+
+theorem hvLeast2d_ok (ref : Option Pt) (points : List Pt) (hne : points ≠ []) :
+    hvLeast2d ref points < points.length := by
   have hpos : 0 < points.length := List.length_pos_iff.mpr hne
   unfold hvLeast2d
-  simp only
   split
   · rename_i b hb
-    have hm := lastMin_mem hb
-    obtain ⟨c, hc, e⟩ := List.mem_map.mp hm
-    have hcs : c ∈ points.zipIdx.mergeSort lexLe := by
-      cases ref with
-      | some r => exact hc
-      | none => exact (List.drop_sublist 1 _).subset ((List.dropLast_sublist _).subset hc)
-    have := mem_zipIdx_snd_lt ((List.mergeSort_perm _ _).mem_iff.mp hcs)
-    rw [← e]; exact this
+    exact contribs2dLit_idx ref points b (lastMin_mem hb)
   · exact hpos
 
 theorem hvLeast3d_ok (hv : List Pt → Pt → Int) (r : Pt) (points : List Pt) (hne : points ≠ []) :
     hvLeast3d hv r points < points.length := by
   have hpos : 0 < points.length := List.length_pos_iff.mpr hne
   unfold hvLeast3d
-  simp only
   split
-  · rename_i b hb
-    have hm := firstMinPair_mem hb
-    obtain ⟨c, hc, e⟩ := List.mem_map.mp hm
-    have := mem_zipIdx_snd_lt ((List.mergeSort_perm _ _).mem_iff.mp hc)
-    rw [← e]; exact this
-  · exact hpos
+  · rename_i c rest hc
+    have hm : c ∈ points.zipIdx.filter fun c => !ltAll c.1 r := by rw [hc]; simp
+    exact mem_zipIdx_snd_lt (List.mem_filter.mp hm).1
+  · simp only
+    split
+    · rename_i b hb
+      have hm := firstMinPair_mem hb
+      obtain ⟨c, hc, e⟩ := List.mem_map.mp hm
+      have := mem_zipIdx_snd_lt ((List.mergeSort_perm _ _).mem_iff.mp hc)
+      rw [← e]; exact this
+    · exact hpos
 
 theorem hvLeastRef_ok (r : Pt) : LcOK (hvLeastRef r) := by
   intro points archive hne
   unfold hvLeastRef
   split
-  · exact hvLeast2d_ok _ _ _ hne
+  · exact hvLeast2d_ok _ _ hne
   · exact hvLeast3d_ok _ _ _ hne
 
-theorem hvLeastNoRef2d_ok : LcOK hvLeastNoRef2d := fun points _ hne => hvLeast2d_ok _ _ _ hne
+theorem hvLeastNoRef2d_ok : LcOK hvLeastNoRef2d := fun points _ hne => hvLeast2d_ok _ _ hne
 
 theorem firstMinGo_bound : ∀ (vs : List (Option Int)) (i bi : Nat) (bv : Option Int),
     firstMinGo vs i bi bv = bi ∨ (i ≤ firstMinGo vs i bi bv ∧ firstMinGo vs i bi bv < i + vs.length)
